@@ -17,7 +17,12 @@ gap-merging code of cogent3 is used by them):
 * full dynamic programming vs Hirschberg (``HIRSCHBERG_LIMIT`` lowered):
   equal score, and the Hirschberg path also rescoring to the maximum;
 * reference-based: the projection of the multiple alignment onto
-  (reference, row), all-gap columns removed, is the pairwise alignment;
+  (reference, row), all-gap columns removed, is the pairwise alignment, also
+  with the Hirschberg limit lowered; the pair-HMMs the app builds encode the
+  requested scores;
+* orientation of the scoring dict (asymmetric dicts): a column pairing
+  character x of the first sequence with character y of the second scores
+  S[x, y];
 * progressive: content clause; every node's pair-HMM (sequence or
   sub-alignment children, predecessor lists read from the alignables) is
   maximised by an independent forward recursion and the node's traceback is
@@ -47,13 +52,14 @@ PROPERTY_ID = "C18"
 LEVEL = "exploration"
 RULE = (
     "pairwise sub-checks: a case is (moltype, two sequences built as identical / unrelated / substring / mutated-with-indels "
-    "copies over a 1-4 letter sub-alphabet, a scoring dict (make_dna_scoring_dict, make_generic_scoring_dict or a random "
-    "symmetric integer matrix), gap open d in 1..20, gap extend e in 0.5..5, local or global, Hirschberg limit 0 or half the "
+    "copies over a 1-4 letter sub-alphabet, a scoring dict (make_dna_scoring_dict, make_generic_scoring_dict, a random "
+    "symmetric integer matrix or a random asymmetric one, S[x,y] != S[y,x]), gap open d in 1..20, gap extend e in 0.5..5, local or global, Hirschberg limit 0 or half the "
     "problem size). 'brute' uses lengths 1-7 and enumerates every monotone path of the aligner's own pair-HMM; 'pair' uses "
     "lengths 8-60 and an independent backward recursion. Non-trivial = the returned path has >= 1 gap and >= 1 mismatch. "
     "merge: a reference (1-12 residues) and 1-4 generated pairwise alignments to it with classic-reachable gap layouts are "
     "given to pairwise_to_multiple; non-trivial = >= 2 non-reference rows whose reference gaps differ. ref: 3-6 related "
-    "sequences through get_app('align_to_ref') with named or longest reference; non-trivial = >= 2 rows whose pairwise "
+    "sequences through get_app('align_to_ref') with named or longest reference, default or passed (symmetric / asymmetric) scores, "
+    "for one case in two repeated with the Hirschberg limit 0; non-trivial = >= 2 rows whose pairwise "
     "alignments put different gaps into the reference. progressive: 2-5 related DNA sequences with a generated guide tree "
     "through get_app('progressive_align'); non-trivial = the result contains a gap and >= 3 sequences. "
     "progopts: 2-5 related sequences (DNA; codon sequences built from sense codons with whole-codon indels; protein over the 20 "
@@ -72,7 +78,16 @@ ASSUMPTIONS = [
     "the own-model optimality clauses (reported score = rescored path = maximum, full DP vs Hirschberg) also apply because they are evaluated on the emission arrays "
     "the aligner built, whatever it put there for an ambiguity code; how an ambiguity code is scored is not documented (observed: log of the mean of exp(score) "
     "over the resolutions of both characters), so the relation between match emissions and the scoring dict is asserted for pairs of canonical characters only",
-    "scoring dicts are symmetric and cover the whole moltype alphabet; scores in -20..20, d in 1..20, e in 0.5..5 (multiples of 0.5)",
+    "scoring dicts cover the whole moltype alphabet; scores in -20..20, d in 1..20, e in 0.5..5 (multiples of 0.5)",
+    "orientation of a scoring dict S for global_pairwise / local_pairwise / classic_align_pairwise(s1, s2, S, ...): the key is (character of s1, character of s2). "
+    "No docstring says so in words; it is the only reading of classic_align_pairwise, which looks up Sd[m1, m2] with m1 from the alphabet of s1 and m2 from the alphabet of s2 "
+    "and fills an array shaped [len(alphabet of s1), len(alphabet of s2)], and it is the universal convention for substitution matrices. It only matters for asymmetric dicts "
+    "(about one case in four); failures of the emission relation under an asymmetric dict carry the tag [asymmetric-scores]. smith_waterman: tests/test_app/test_align.py pins "
+    "app(coll) == local_pairwise(first sequence of the collection, second, ...), so the first sequence is s1 (clause sw_app/model/sequence-order). align_to_ref does not document "
+    "whether the reference is s1 or s2: the harness reads the argument order off the pair-HMMs the app built and uses the same order for its own global_pairwise calls, "
+    "so either order is accepted; within that order the key is (character of the first, character of the second)",
+    "align_to_ref with the Hirschberg limit 0: the result must keep the pairwise alignments that global_pairwise returns under the same limit, and each of those must be a path of "
+    "maximal score of the pair's own model (co-optimal paths differing from the full-DP one are acceptable, as for the pair sub-checks)",
     "optimality is judged on the aligner's own pair-HMM (transition matrix and emission arrays read from the PairHMM it built); "
     "that model is only required to encode the requested scores up to per-state additive constants: log T[M,gap]-log T[M,M] = -d, "
     "log T[gap,gap]-log T[gap,M] = -e, no X<->Y transition, match emissions differ by the differences of the scoring dict, gap emissions constant",
@@ -145,6 +160,20 @@ def _ncanon(text, mt):
 
 
 # ===================================================================== model
+def _child_name(c):
+    try:
+        return str(c.leaf.edge_name)
+    except Exception:  # noqa: BLE001 - only used to tell the two dimensions apart; absent = unknown
+        return None
+
+
+def _child_text(c):
+    try:
+        return str(c.seq) if hasattr(c, "seq") else None
+    except Exception:  # noqa: BLE001
+        return None
+
+
 class Model:
     """the aligner's own pair-HMM, as plain python lists"""
 
@@ -174,6 +203,10 @@ class Model:
         self.px = [[int(p) for p in pre] for pre in ep.pair.children[0]]
         self.py = [[int(p) for p in pre] for pre in ep.pair.children[1]]
         self.kinds = tuple("seq" if type(c).__name__ == "AlignableSeq" else "aln" for c in ep.pair.children)
+        # which sequence is the first (x) and which the second (y) dimension of this model: names and texts of
+        # sequence children (None for a sub-alignment child)
+        self.names = tuple(_child_name(c) for c in ep.pair.children)
+        self.texts = tuple(_child_text(c) for c in ep.pair.children)
         self.by_dir = {}
         for st_, b, dx, dy in self.states:
             self.by_dir.setdefault((dx, dy), []).append(st_)
@@ -422,6 +455,14 @@ def expected_scores(spec, mt):
         for a in letters:
             for b in letters:
                 out[a, b] = spec["dm"] if a == b else spec["dx"]
+        if kind == "asym":
+            # a full k x k matrix, row = character of the first sequence, column = character of the second
+            if len(vals) != k * k:
+                raise HarnessError("asym spec needs k*k values")
+            for i in range(k):
+                for j in range(k):
+                    out[sub[i], sub[j]] = vals[i * k + j]
+            return out
         idx = 0
         for i in range(k):
             for j in range(i, k):
@@ -429,6 +470,10 @@ def expected_scores(spec, mt):
                 out[sub[j], sub[i]] = vals[idx]
                 idx += 1
     return out
+
+
+def is_asymmetric(want):
+    return any(v != want[b, a] for (a, b), v in want.items())
 
 
 def _default_spec(mt):
@@ -441,6 +486,8 @@ def build_scoring(s, spec, mt, sig):
     from cogent3.align import make_dna_scoring_dict, make_generic_scoring_dict
 
     want = expected_scores(spec, mt)
+    if is_asymmetric(want):
+        s.cls("S:asymmetric")
     if spec["kind"] == "dna":
         ok, S = s.call(f"{sig}/make_dna_scoring_dict", make_dna_scoring_dict, spec["m"], spec["ts"], spec["tv"])
     elif spec["kind"] == "generic":
@@ -524,17 +571,21 @@ def check_model(s, model, want, d, e, s1, s2):
         ok &= s.close(L[Mst][g] - L[Mst][Mst], -d, "model/gap-open", f"log T[M,{nm}] - log T[M,M]", rtol=tol, atol=tol)
         ok &= s.close(L[g][g] - L[g][Mst], -e, "model/gap-extend", f"log T[{nm},{nm}] - log T[{nm},M]", rtol=tol, atol=tol)
     ok &= s.check(L[Xst][Yst] == NEG and L[Yst][Xst] == NEG, "model/no-x-y", f"T[X,Y]={L[Xst][Yst]} T[Y,X]={L[Yst][Xst]} must be impossible")
-    # emissions
-    base = None
+    # emissions: a column pairing character x of the first sequence with character y of the second scores S[x, y]
+    # (up to one additive constant).  With an asymmetric S the failures get their own signature (orientation of the dict)
+    if len(s1) != model.n or len(s2) != model.m:
+        raise HarnessError(f"model of size ({model.n},{model.m}) judged against sequences {s1!r} {s2!r}")
+    circ = "[asymmetric-scores]" if is_asymmetric(want) else ""
+    base = first = None
     for i in range(1, model.n + 1):
         for j in range(1, model.m + 1):
             if (s1[i - 1], s2[j - 1]) not in want:
                 continue  # a pair with an ambiguity code: its score is not documented, not asserted
             v = model.em(Mst, i, j) - want[s1[i - 1], s2[j - 1]]
             if base is None:
-                base = v
+                base, first = v, (s1[i - 1], s2[j - 1])
             elif abs(v - base) > 1e-9 * max(1.0, abs(base)):
-                ok &= s.check(False, "model/match-emission", f"emission({s1[i-1]},{s2[j-1]}) - S = {v!r}, for ({s1[0]},{s2[0]}) it is {base!r}")
+                ok &= s.check(False, "model/match-emission" + circ, f"first sequence {s1}, second {s2}: emission({s1[i-1]},{s2[j-1]}) - S[{s1[i-1]},{s2[j-1]}] = {v!r}, but emission{first} - S{first} = {base!r}")
                 break
         else:
             continue
@@ -571,6 +622,10 @@ def observe_pair(s, sig, fn, s1, s2, S, d, e, limit):
     if not s.check(len(got) == 1, f"{sig}/one-hmm", f"{len(got)} PairHMM objects built"):
         return None
     model = Model(got[0])
+    # the first argument / first sequence of the collection is the first dimension of the model (for the app:
+    # test_smith_waterman_matches_local_pairwise pins app(coll) == local_pairwise(first, second))
+    if not s.check(model.names == ("a", "b"), f"{sig}/model/sequence-order", f"the model was built for {model.names} {model.texts}, the call was (a, b)"):
+        return None
     return rows["a"], rows["b"], score, model
 
 
@@ -728,7 +783,7 @@ def _mutate(draw, t, letters, hi, nmax=6):
 
 
 def _scoring_spec(draw, mt, letters):
-    kinds = ["dna", "generic", "matrix", "matrix"] if mt == "dna" else ["generic", "matrix", "matrix"]
+    kinds = ["dna", "generic", "matrix", "matrix", "asym", "asym"] if mt == "dna" else ["generic", "matrix", "matrix", "asym"]
     kind = draw(st.sampled_from(kinds))
     if kind == "dna":
         m = draw(st.integers(1, 12))
@@ -736,6 +791,10 @@ def _scoring_spec(draw, mt, letters):
     if kind == "generic":
         return {"kind": "generic", "m": draw(st.integers(1, 12))}
     k = len(letters)
+    if kind == "asym":
+        # S[x, y] != S[y, x] in general: row = character of the first sequence, column = character of the second
+        vals = draw(st.lists(st.integers(-12, 12), min_size=k * k, max_size=k * k))
+        return {"kind": "asym", "letters": letters, "vals": vals, "dm": draw(st.integers(-2, 12)), "dx": draw(st.integers(-12, 4))}
     vals = draw(st.lists(st.integers(-12, 12), min_size=k * (k + 1) // 2, max_size=k * (k + 1) // 2))
     return {"kind": "matrix", "letters": letters, "vals": vals, "dm": draw(st.integers(-2, 12)), "dx": draw(st.integers(-12, 4))}
 
@@ -841,22 +900,22 @@ def exec_merge(case) -> Soft:
     return s
 
 
-def check_multiple(s, rows, ref_name, pairs, inputs):
+def check_multiple(s, rows, ref_name, pairs, inputs, pre=""):
     """content + 'keeps each sequence's pairwise alignment with the reference'"""
-    if not s.eq(sorted(rows), sorted(inputs), "content/names", "row names"):
+    if not s.eq(sorted(rows), sorted(inputs), pre + "content/names", "row names"):
         return
     lens = {len(v) for v in rows.values()}
-    if not s.check(len(lens) == 1, "content/equal-length", f"{rows}"):
+    if not s.check(len(lens) == 1, pre + "content/equal-length", f"{rows}"):
         return
     okc = True
     for name, text in inputs.items():
-        okc &= s.eq(rows[name].replace("-", ""), text, "content/degapped", f"row {name} of {rows}")
+        okc &= s.eq(rows[name].replace("-", ""), text, pre + "content/degapped", f"row {name} of {rows}")
     if not okc:
         return
     circ = "[ref-gap-inside-deletion]" if _ref_gap_inside_deletion(pairs) else ""
     for name, (rr, orow) in pairs.items():
         got = project(rows, ref_name, name)
-        s.eq(got, (rr, orow), "keeps-pairwise" + circ, f"projection of result {rows} onto ({ref_name},{name})")
+        s.eq(got, (rr, orow), pre + "keeps-pairwise" + circ, f"projection of result {rows} onto ({ref_name},{name})")
 
 
 def _ref_gap_inside_deletion(pairs):
@@ -928,24 +987,44 @@ def merge_cases(draw):
 
 
 # ======================================================= align_to_ref check
+def _ref_pairs(s, sig, seqs, objs, ref_name, ref_first, S, d, e, limit):
+    """the pairwise alignment of every sequence with the reference, by global_pairwise in the argument order the app
+    used -> ({name: (reference row, other row)}, {name: Model}) or None"""
+    from cogent3.align import global_pairwise
+
+    pairs, models = {}, {}
+    for n in sorted(seqs):
+        if n == ref_name:
+            continue
+        a, b = (ref_name, n) if ref_first.get(n, True) else (n, ref_name)
+        with capture_hmms(limit) as got:
+            ok, aln = s.call(f"{sig}global_pairwise", global_pairwise, objs[a], objs[b], S, d, e)
+        if not ok:
+            return None
+        ok, pr = s.call(f"{sig}global_pairwise/to_dict", lambda: {str(k): str(v) for k, v in aln.to_dict().items()})
+        if not ok:
+            return None
+        if not s.check(set(pr) == {ref_name, n}, f"{sig}global_pairwise/names", f"rows {sorted(pr)}"):
+            return None
+        pairs[n] = (pr[ref_name], pr[n])
+        if len(got) == 1:
+            models[n] = (Model(got[0]), a, b)
+    return pairs, models
+
+
 def exec_ref(case) -> Soft:
     from cogent3 import get_app, make_seq, make_unaligned_seqs
-    from cogent3.align import global_pairwise
 
     s = Soft("C18/align_to_ref/")
     mt, seqs, ref = case["mt"], case["seqs"], case["ref"]
     spec, d, e = case["S"], case["d"], case["e"]
     names = sorted(seqs)
     kw = {}
+    S, want = build_scoring(s, spec if spec is not None else _default_spec(mt), mt, "scoring")
+    if S is None:
+        return s
     if spec is not None:
-        S, _ = build_scoring(s, spec, mt, "scoring")
-        if S is None:
-            return s
         kw["score_matrix"] = S
-    else:
-        S, _ = build_scoring(s, {"kind": "dna", "m": 10, "ts": -1, "tv": -8} if mt == "dna" else {"kind": "generic", "m": 10}, mt, "scoring")
-        if S is None:
-            return s
     s.cls(mt, "ref:longest" if ref == "longest" else "ref:named", "S:default" if spec is None else "S:" + spec["kind"], f"n={len(names)}")
     s.cls("ambiguity" if any(c in AMBIG[mt] for v in seqs.values() for c in v) else "canonical")
     vals = list(seqs.values())
@@ -959,7 +1038,8 @@ def exec_ref(case) -> Soft:
     ok, app = s.call("get_app", get_app, "align_to_ref", ref_seq=ref, insertion_penalty=d, extension_penalty=e, moltype=mt, **kw)
     if not ok:
         return s
-    ok, res = s.call("call", app, coll)
+    with capture_hmms() as app_hmms:
+        ok, res = s.call("call", app, coll)
     if not ok:
         return s
     if not _completed(s, "completed", res, "app returned"):
@@ -974,27 +1054,59 @@ def exec_ref(case) -> Soft:
             raise HarnessError("ref='longest' is only in the domain when the longest sequence is unique with and without its ambiguity codes")
     else:
         ref_name = ref
-    ok, ref_seq = s.call("make_seq", make_seq, seqs[ref_name], name=ref_name, moltype=mt)
-    if not ok:
-        return s
-    pairs = {}
+    objs = {}
     for n in names:
-        if n == ref_name:
+        ok, objs[n] = s.call("make_seq", make_seq, seqs[n], name=n, moltype=mt)
+        if not ok:
+            return s
+    # the pair-HMMs the app built: which of (reference, sequence) it made the first dimension (not documented, so it
+    # is read off), and the relation of their scores to the requested S, d, e (as for global_pairwise)
+    ref_first = {}
+    for h in app_hmms:
+        model = Model(h)
+        if ref_name not in model.names or len(set(model.names)) != 2 or not all(n in seqs for n in model.names):
             continue
-        ok, other = s.call("make_seq", make_seq, seqs[n], name=n, moltype=mt)
-        if not ok:
-            return s
-        ok, aln = s.call("global_pairwise", global_pairwise, ref_seq, other, S, d, e)
-        if not ok:
-            return s
-        ok, pr = s.call("global_pairwise/to_dict", lambda: {str(k): str(v) for k, v in aln.to_dict().items()})
-        if not ok:
-            return s
-        pairs[n] = (pr[ref_name], pr[n])
+        other = model.names[1] if model.names[0] == ref_name else model.names[0]
+        if other in ref_first or model.texts != (seqs[model.names[0]], seqs[model.names[1]]):
+            continue
+        ref_first[other] = model.names[0] == ref_name
+        check_model(s, model, want, d, e, *model.texts)
+    s.cls("pair-hmms:all-seen" if len(ref_first) == len(names) - 1 else "pair-hmms:not-all-seen")
+    got = _ref_pairs(s, "", seqs, objs, ref_name, ref_first, S, d, e, None)
+    if got is None:
+        return s
+    pairs, models = got
     layouts = {tuple(sorted(gap_slots(rr).items())) for rr, _ in pairs.values()}
     s.cls(f"ref-gap-layouts={min(len(layouts), 3)}")
     s.nontrivial = len(layouts) >= 2
     check_multiple(s, rows, ref_name, pairs, dict(seqs))
+    evals = 1
+
+    # linear space: the same app with the Hirschberg limit at 0 keeps the pairwise alignments made with that limit,
+    # and those are paths of maximal score of the same model (co-optimal paths are all acceptable)
+    if case.get("hl") == 0:
+        with capture_hmms(0):
+            ok, hres = s.call("hirschberg/call", app, coll)
+        if ok and _completed(s, "hirschberg/completed", hres, "app returned"):
+            ok, hrows = s.call("hirschberg/to_dict", lambda: {str(k): str(v) for k, v in hres.to_dict().items()})
+            hgot = _ref_pairs(s, "hirschberg/", seqs, objs, ref_name, ref_first, S, d, e, 0) if ok else None
+            if hgot is not None:
+                evals += 1
+                hpairs = hgot[0]
+                s.cls("hirschberg:same-alignment" if hrows == rows else "hirschberg:other-alignment")
+                check_multiple(s, hrows, ref_name, hpairs, dict(seqs), pre="hirschberg/")
+                for n, (hr, ho) in hpairs.items():
+                    if (hr, ho) == pairs[n] or n not in models:
+                        continue
+                    model, a, b = models[n]
+                    if len(hr) != len(ho) or hr.replace("-", "") != seqs[ref_name] or ho.replace("-", "") != seqs[n]:
+                        continue  # reported by the content clauses of the pair sub-checks; nothing to rescore
+                    path = path_from_rows(model, *((hr, ho) if a == ref_name else (ho, hr)), 0, 0)
+                    if path is None:
+                        continue
+                    best = model.best(False)
+                    s.close(model.score_path(path, False), best, "hirschberg/pairwise-is-optimal", f"({ref_name},{n}) with limit 0: {hr}/{ho}; full dp gave {pairs[n][0]}/{pairs[n][1]}", rtol=1e-9, atol=1e-9)
+    s.evals = evals
     return s
 
 
@@ -1054,6 +1166,7 @@ def ref_cases(draw):
         "S": None if default else _scoring_spec(draw, mt, canon[:4]),
         "d": draw(st.integers(1, 20)),
         "e": draw(st.integers(1, 10)) / 2,
+        "hl": draw(st.sampled_from([None, 0])),
     }
 
 
@@ -1448,14 +1561,15 @@ KNOWN_PREDICATES = {}
 
 META = {
     "technique": "exhaustive path enumeration and an independent backward recursion over the aligner's own pair-HMM arrays; "
-    "differential full DP vs Hirschberg; projection oracle for reference-based merging; content oracle for progressive alignment "
+    "differential full DP vs Hirschberg; projection oracle for reference-based merging (full and linear-space DP); orientation of asymmetric scoring dicts read from the emission arrays; content oracle for progressive alignment "
     "(also over models, guide-tree sources and options, app and tree_align entry points) and for sequences with ambiguity codes",
     "level_text": "For generated sequence pairs (DNA and protein, lengths 1-60, identical/unrelated/substring/mutated), scoring "
     "dicts, gap penalties and both alignment modes the harness reads the pair-HMM the aligner built, scores the returned path "
     "itself and compares the reported score with the maximum over all paths (every path enumerated up to about 9000 paths, "
     "an independent recursion beyond), and repeats the global alignment with the Hirschberg limit lowered. Reference-based "
-    "merging is driven with generated classic-reachable pairwise alignments and through align_to_ref, and judged by projecting "
-    "the result back onto each (reference, row) pair. Progressive alignment is judged on content, on optimality of every node's traceback for that node's own "
+    "merging is driven with generated classic-reachable pairwise alignments and through align_to_ref (also with the Hirschberg limit at 0), and judged by projecting "
+    "the result back onto each (reference, row) pair; about one scoring dict in four is asymmetric, and the emission arrays of global/local pairwise, smith_waterman and align_to_ref "
+    "must then score a column (x of the first sequence, y of the second) with S[x, y]. Progressive alignment is judged on content, on optimality of every node's traceback for that node's own "
     "pair-HMM (forward recursion over the predecessor graph) and on agreement of full and linear-space dynamic programming. "
     "A further sub-check runs progressive alignment with DNA, codon and protein models, estimated and given (also multifurcating) guide trees, iters, approx_dists, "
     "unique_guides and param_vals, through the app and through tree_align, and the smith_waterman app is judged like local_pairwise. One case in three of every sub-check "
